@@ -754,16 +754,20 @@ static void exec_line(char *line) {
         sigprocmask(SIG_BLOCK, &s, NULL);
     } else if (!strcmp(c, "sigign")) signal(atoi(tok[1]), SIG_IGN);
     else if (!strcmp(c, "closeout")) {
-        /* make stdout/stderr pipes reader-less (EPIPE) */
-        if (!strcmp(tok[1], "stdout") && g_out_r >= 0) {
-            close(g_out_r);
-            g_out_r = -1;
+        /* make stdout/stderr a pipe whose reader is gone (EPIPE / SIGPIPE on write) */
+        int p[2];
+        if (pipe(p) == 0) {
+            dup2(p[1], !strcmp(tok[1], "stdout") ? 1 : 2);
+            close(p[0]);
+            close(p[1]);
         }
-        if (!strcmp(tok[1], "stderr") && g_err_r >= 0) {
-            close(g_err_r);
-            g_err_r = -1;
-        }
-    } else if (!strcmp(c, "heapmark")) {
+    } else if (!strcmp(c, "closefd")) close(atoi(tok[1]));
+    else if (!strcmp(c, "rmdir")) {
+        char *p = decode_bytes(tok[1], NULL);
+        rmdir(p);
+        free(p);
+    }
+    else if (!strcmp(c, "heapmark")) {
         void (*mk)(void) = (void (*)(void)) dlsym(RTLD_DEFAULT, "vheap_mark");
         if (mk) mk();
     } else if (!strcmp(c, "snap")) {
